@@ -18,7 +18,7 @@ type diffsObs struct {
 
 func runC19(cfg *vh.Config) error {
 	res := vh.NewResult("C19", cfg.Seed)
-	res.Rule = "inputs: formatter templates (trailing comments, several statements per line, multi-line tokens, leading/trailing blank lines, whitespace-only gaps), the repository's .j5s/.bcl/fixture files, grammar-generated files (1/5 mutated), windows of repository files (1/3 mutated), random <=3-token sequences; non-trivial = distinct input the formatter accepts with at least one statement"
+	res.Rule = "inputs: formatter templates (trailing comments, several statements per line, multi-line tokens, leading/trailing blank lines, whitespace-only gaps), the repository's .j5s/.bcl/fixture files, grammar-generated files (1/5 mutated), windows of repository files (1/3 mutated), random <=3-token sequences, a pinned byte-level corpus (valid multi-byte characters, Unicode spaces, every kind of invalid UTF-8 in every literal kind), pinned templates (two fragments sharing a line where the second runs on, a multi-line block comment as the last fragment, empty arrays, runs of empty description lines); the run also counts whether FmtDiffs of the formatter's own output is empty; non-trivial = distinct input the formatter accepts with at least one statement"
 	cf := &vh.CasesFile{
 		Header: "From Coq Require Import String List NArith ZArith.\nFrom J5V.model Require Import BclFmtCorr.",
 		Type:   "fmtcase",
